@@ -80,56 +80,75 @@ def check_result(case, groups, new, stats, label, k=None):
                             "coordinates %r" % (label, j, p.tolist(), fr.tolist()))
     if not r_only:
         return 0
-    nb = len(r_only)
-    blocks = [inserted[i:i + nb] for i in range(0, len(inserted), nb)]
-    for b in blocks:
-        if sorted(j for j, _ in b) != sorted(r_only):
-            raise Violation("block-composition", "%s: a block of inserted atoms is not one copy of each new atom: %r" % (label, [j for j, _ in b]))
+    # group the inserted atoms into one block per replaced match WITHOUT assuming the order in which they were appended:
+    # search for an assignment (replaced groups, one unused copy of every new atom each) such that every block, together
+    # with its matched atoms, is a proper rigid image of search+replacement pattern
+    copies = {j: [p for jj, p in inserted if jj == j] for j in r_only}
+    for j in r_only:
+        if len(copies[j]) != K:
+            raise Violation("block-composition", "%s: %d copies of new atom %d for %d replaced matches" % (label, len(copies[j]), j, K))
     amp = amp_factor(case)
+    S = np.array(case["ppos"], float)
     P = np.array([case["ppos"][i] for i in range(len(case["ppos"]))] + [case["rpos"][j] for j in r_only], float)
     offs = geom.image_block(2) @ cell
-    ncross = 0
     keys = list(groups)
-    compat = []          # compat[b][g] = (ok, maxdev, bound, eps, ins)
-    for b in blocks:
-        bpos = {j: p for j, p in b}
-        row = []
-        for key in keys:
-            best = None
-            for o in groups[key]["orderings"]:
-                Y = o["pos"]
-                anchor = Y[0]
-                ins = []
-                for j in r_only:
-                    cand = bpos[j] + offs
-                    ins.append(cand[int(np.argmin(((cand - anchor) ** 2).sum(-1)))])
-                T = np.vstack([Y, np.array(ins)])
-                R, t, rmsd, maxdev = geom.kabsch(P, T)
-                bound = math.sqrt(len(P)) * 2.0 * o["maxdev"] * amp + ABS_SLACK
-                if best is None or maxdev - bound < best[1] - best[2]:
-                    best = (maxdev <= bound, maxdev, bound, o["maxdev"], ins)
-            row.append(best)
-        compat.append(row)
+    pdist = {j: [float(np.linalg.norm(np.array(case["rpos"][j]) - S[m])) for m in range(len(S))] for j in r_only}
+
+    def candidates(o, j, used):
+        """unused copies of new atom j (unwrapped next to the match) that have the pattern's distances to the matched atoms"""
+        Y = o["pos"]
+        tol = 2 * (math.sqrt(len(P)) * 2.0 * o["maxdev"] * amp + ABS_SLACK) + 1e-3
+        out = []
+        for ci, p in enumerate(copies[j]):
+            if (j, ci) in used:
+                continue
+            cand = p + offs
+            q = cand[int(np.argmin(((cand - Y[0]) ** 2).sum(-1)))]     # unique: widths > 2 diam(S u R) + 4 atol
+            if all(abs(float(np.linalg.norm(q - Y[m])) - pdist[j][m]) <= tol for m in range(len(S))):
+                out.append((ci, q))
+        return out
+
+    best_fail = [None]
+
+    def fit(o, chosen):
+        T = np.vstack([o["pos"], np.array([q for _, q in chosen])])
+        R, t, rmsd, maxdev = geom.kabsch(P, T)
+        bound = math.sqrt(len(P)) * 2.0 * o["maxdev"] * amp + ABS_SLACK
+        if maxdev > bound and (best_fail[0] is None or maxdev - bound < best_fail[0][0]):
+            best_fail[0] = (maxdev - bound, maxdev, bound, o["maxdev"], [q.tolist() for _, q in chosen])
+        return maxdev <= bound
+
     import itertools
-    assignment = None
-    for perm in itertools.permutations(range(len(keys)), len(blocks)):
-        if all(compat[bi][gi][0] for bi, gi in enumerate(perm)):
-            assignment = perm
-            break
+
+    def rec(gi, used, nblocks_left, acc):
+        if nblocks_left == 0:
+            return acc
+        if len(keys) - gi < nblocks_left:
+            return None
+        key = keys[gi]
+        for o in groups[key]["orderings"]:
+            cands = [candidates(o, j, used) for j in r_only]
+            if all(cands):
+                for combo in itertools.product(*cands):
+                    if fit(o, combo):
+                        r = rec(gi + 1, used | {(j, ci) for j, (ci, _) in zip(r_only, combo)}, nblocks_left - 1,
+                                acc + [(key, combo)])
+                        if r is not None:
+                            return r
+        return rec(gi + 1, used, nblocks_left, acc)      # this group was not replaced (fraction < 1)
+
+    assignment = rec(0, frozenset(), K, [])
     if assignment is None:
-        # report the block that fits no group at all, or the first one
-        bi = next((i for i, row in enumerate(compat) if not any(c[0] for c in row)), 0)
-        gi = int(np.argmin([c[1] - c[2] for c in compat[bi]]))
-        c = compat[bi][gi]
-        raise Violation("misplaced-insertion", "%s: the blocks of inserted atoms cannot be assigned one-to-one to the "
-                        "replaced groups such that each, together with its matched atoms, is a proper rigid image of "
-                        "search+replacement pattern. Block %r: closest group %r has max residual %.4g > bound %.4g (fit "
-                        "deviation of the match %.3g, amplification %.3g)" %
-                        (label, [(j, p.tolist()) for j, p in blocks[bi]], keys[gi], c[1], c[2], c[3], amp))
-    for bi, gi in enumerate(assignment):
-        bpos = {j: p for j, p in blocks[bi]}
-        for j, q in zip(r_only, compat[bi][gi][4]):
-            if np.abs(q - bpos[j]).max() > 1e-6:
+        bf = best_fail[0]
+        raise Violation("misplaced-insertion", "%s: the inserted atoms cannot be grouped one block per replaced match such that "
+                        "each block, together with its matched atoms, is a proper rigid image of search+replacement pattern%s "
+                        "(amplification %.3g); inserted atoms: %r" %
+                        (label, "" if bf is None else ": closest attempt has max residual %.4g > bound %.4g (fit deviation of the "
+                         "match %.3g)" % (bf[1], bf[2], bf[3]), amp, [(jj, p.tolist()) for jj, p in inserted][:8]))
+    ncross = 0
+    for key, combo in assignment:
+        for j, (ci, q) in zip(r_only, combo):
+            if np.abs(q - copies[j][ci]).max() > 1e-6:
                 ncross += 1
     return ncross
 
